@@ -1,3 +1,4 @@
+import Cutadapt.Generated.Tolerance
 import Cutadapt.Proofs.IndexSphere
 import Cutadapt.Proofs.IndexEnv
 import Cutadapt.Proofs.IndexDict
@@ -446,5 +447,17 @@ example : ∃ mt, indexMatchTo alistOps (makeIndex alistOps
       | j+3, ⟨h1, _⟩, _ => simp at h1)
   obtain ⟨mt, h1, h2, _⟩ := this
   exact ⟨mt, h1, h2⟩
+
+/-! ## Tolerance over the full adapter for absolute error counts (regenerated from the working tree on every run) -/
+
+/-- `-e k` on an adapter of `n` informative bases is stored as the double `k/n`; over the whole adapter the tolerance is `floor(fl(k/n) · n)`
+    (`thrOfRate`), which is `k - 1` for a few pairs such as (1, 49) -/
+def fullTolerance (k n : Nat) : Nat := Cutadapt.Adapters.thrOfRate (Float.ofNat k / Float.ofNat n) n
+
+/-- **Through the adapter index the real program accepts the same number of substitutions as the adapter alone** (`floor(fl(k/n) · n)`; observed for `k ≤ 2`, where
+    the index is small): the index's own computation of the tolerance and the adapter's agree on the working tree -/
+theorem generated_index_tolerance :
+    ∀ row ∈ Cutadapt.Generated.toleranceRows, row.2.2.2.1 = none ∨ (row.2.2.2.1 = some (fullTolerance row.1 row.2.1) ∧ row.2.2.2.1 = some row.2.2.1) := by
+  decide +kernel
 
 end Cutadapt.C08
